@@ -178,5 +178,7 @@ def check(ctx, run):
     walkers.w_advance(ctx, run, 'R14.7/R05.2', only=only, floor=2)
     dispatch.r11_1(ctx, run, rule='R14.8/R11.1', only={'functions::convert_to_comparable'})
     ordering.r04_1(ctx, run, rule='R14.2/R04.1')
+    # the key orders values of different kinds by their rank bytes: compare must order each pair of kinds the same way (R04.2)
+    ordering.r04_2(ctx, run, rule='R14.2/R04.2')
     numcodec.r18_4(ctx, run, rule='R14.9/R18.4')
     return report.finish(run, level='other', explanation=EXPLANATION, assumptions=["A1: valid documents"])
